@@ -25,7 +25,7 @@ def cases(tier, seed):
     rng = np.random.default_rng([seed, 1616])
     n = 170 if tier == "quick" else 15000
     for i in range(n):
-        yield {"mesh": gen.random_mesh(rng, 150 if tier == "quick" else 1200, families=["voronoi", "delaunay", "merged", "polyhedron", "cubed_sphere", "latlon_patch", "latlon_global", "clustered", "fine_patch", "refined"]),
+        yield {"mesh": gen.random_mesh(rng, 150 if tier == "quick" else 1200, families=["voronoi", "delaunay", "merged", "polyhedron", "cubed_sphere", "latlon_patch", "latlon_global", "clustered", "fine_patch", "refined", "sample"]),
                "dseed": int(rng.integers(0, 10**6)), "lead": [int(x) for x in rng.integers(1, 4, size=int(rng.integers(0, 3)))],
                "source": str(rng.choice(["topology", "topology", "mpas_supplied", "mpas_plain", "topology_edge_tables"]))}
 
